@@ -155,6 +155,27 @@ pub fn programs(tier: Tier) -> ProgramSet {
             }
         }
     }
+    for (mut spec, label) in super::strfam::scale_specs() {
+        // C03's glue builds const values: keep const-constructible payloads
+        for v in spec.variants.iter_mut() {
+            if !v.kind.is_unit() {
+                v.kind = Kind::Tuple(vec![FieldTy::U8, FieldTy::Bool, FieldTy::I32, FieldTy::U8, FieldTy::Bool]);
+            }
+        }
+        spec.aci = false;
+        for v in spec.variants.iter_mut() {
+            v.aci = None;
+        }
+        if domain(&spec) && seen.insert(spec.clone()) {
+            for cis in [false, true] {
+                let mut sp = spec.clone();
+                sp.const_into_str = cis;
+                sp.prefix = if cis { Some("prefix/".into()) } else { None };
+                let source = render(&sp);
+                out.push(Program { idx: 0, label: format!("{}{}", label, if cis { " + const_into_str + prefix" } else { "" }), k: 1, spec: sp, aux: json!(null), source });
+            }
+        }
+    }
     let mut ex = std::collections::BTreeMap::new();
     ex.insert("tie in byte length between serialize literals".to_string(), excluded);
     ProgramSet { programs: finish(out), excluded: ex, bounds: json!({"plan_(N,k)": if tier == Tier::Quick { json!([[3,1],[2,2]]) } else { json!([[3,2],[2,3]]) }, "styles": 16, "prefixes": ["", "p_", "é/"]}) }
